@@ -63,6 +63,8 @@ type FoundViolation struct {
 	BinKind string
 	Env     []string
 	Replay  string // already written replay file (extra violations)
+	// the worker's run sequence was Start, Start+Stride, ...
+	Start, Stride uint64
 }
 
 type KnownFinding struct {
@@ -102,10 +104,15 @@ type phaseResult struct {
 
 func repoInfo() map[string]string {
 	out := map[string]string{}
-	if b, err := exec.Command("git", "-C", "/repo", "rev-parse", "HEAD").Output(); err == nil {
+	repo := os.Getenv("VERIF_REPO")
+	if repo == "" {
+		repo = "/repo"
+	}
+	out["path"] = repo
+	if b, err := exec.Command("git", "-C", repo, "rev-parse", "HEAD").Output(); err == nil {
 		out["head"] = strings.TrimSpace(string(b))
 	}
-	if b, err := exec.Command("git", "-C", "/repo", "diff", "--stat").Output(); err == nil {
+	if b, err := exec.Command("git", "-C", repo, "diff", "--stat").Output(); err == nil {
 		out["dirty_hash"] = fmt.Sprintf("%016x", Hash64(string(b)))
 	}
 	return out
@@ -253,7 +260,7 @@ func (c *Check) runPhase(p Phase) *phaseResult {
 						res.harness = append(res.harness, fmt.Sprintf("index %d seed %d: %s", o.Index, o.Seed, o.Harness))
 					}
 					for _, v := range o.Violations {
-						res.found = append(res.found, FoundViolation{V: v, Seed: o.Seed, Index: o.Index, Tape: o.Tape, Engine: p.Engine, Bin: p.Bin, BinKind: p.BinKind, Env: p.Env})
+						res.found = append(res.found, FoundViolation{V: v, Seed: o.Seed, Index: o.Index, Tape: o.Tape, Engine: p.Engine, Bin: p.Bin, BinKind: p.BinKind, Env: p.Env, Start: uint64(w), Stride: uint64(workers)})
 					}
 					if o.Scenario != nil && len(res.samples) < 5 {
 						res.samples = append(res.samples, map[string]any{"seed": o.Seed, "index": o.Index, "scenario": o.Scenario, "faults": o.Faults, "probes": o.Probes})
@@ -337,6 +344,58 @@ func (c *Check) runPhase(p Phase) *phaseResult {
 		}
 	}
 	return res
+}
+
+// replayWithPriors tries the violation after the runs its worker executed
+// before it, then minimises that list (fresh process per attempt).
+func replayWithPriors(rf *ReplayFile, fv FoundViolation, path string) bool {
+	if fv.Stride == 0 {
+		return false
+	}
+	var prior []uint64
+	for k := fv.Start; k < fv.Index; k += fv.Stride {
+		prior = append(prior, k)
+	}
+	if len(prior) == 0 {
+		return false
+	}
+	base, _ := rf.Extra.(map[string]any)["base_seed"].(uint64)
+	rf.BaseSeed = base
+	try := func(pr []uint64) bool {
+		rf.Prior = pr
+		b, _ := json.MarshalIndent(rf, "", " ")
+		os.WriteFile(path, append(b, '\n'), 0o644)
+		cmd := exec.Command(fv.Bin, "exec1", "--file", path)
+		cmd.Env = append(os.Environ(), fv.Env...)
+		err := cmd.Run()
+		ee, ok := err.(*exec.ExitError)
+		return ok && ee.ExitCode() == 1
+	}
+	if !try(prior) {
+		return false
+	}
+	// ddmin over the prior list, bounded
+	cur := prior
+	deadline := time.Now().Add(60 * time.Second)
+	for chunk := len(cur) / 2; chunk >= 1 && time.Now().Before(deadline); {
+		removed := false
+		for i := 0; i+chunk <= len(cur) && time.Now().Before(deadline); {
+			cand := append(append([]uint64{}, cur[:i]...), cur[i+chunk:]...)
+			if try(cand) {
+				cur = cand
+				removed = true
+			} else {
+				i += chunk
+			}
+		}
+		if !removed || chunk > len(cur) {
+			chunk /= 2
+		}
+		if chunk > len(cur) {
+			chunk = len(cur)
+		}
+	}
+	return try(cur)
 }
 
 func maxU(a, b uint64) uint64 {
@@ -476,9 +535,14 @@ func RunCheck(c *Check) int {
 					cmd.Env = append(os.Environ(), fv.Env...)
 					err = cmd.Run()
 					if ee, ok := err.(*exec.ExitError); !ok || ee.ExitCode() != 1 {
-						total.harness = append(total.harness, fmt.Sprintf("violation %s at index %d does not replay in a fresh process (file %s)", fv.V.Class, fv.Index, path))
-						nViol--
-						continue
+						// Not reproducible alone: does it depend on what the same worker
+						// process ran before (state kept in package-level variables)?
+						if !replayWithPriors(&rf, fv, path) {
+							total.harness = append(total.harness, fmt.Sprintf("violation %s at index %d does not replay in a fresh process, neither alone nor after the runs the same worker executed before it (file %s)", fv.V.Class, fv.Index, path))
+							nViol--
+							continue
+						}
+						fmt.Printf("note: %s reproduces only after %d earlier run(s) of the same process: state survives between runs\n", path, len(rf.Prior))
 					}
 				}
 			}
